@@ -42,6 +42,13 @@ def run(chk, model: SegmentModel = None):
     S = m.S
     rep = m.loop_reports[0] if m.loop_reports else {}
 
+    if m.error is None:
+        _bytes_ai_part(chk, m, S, rep)
+    _structural_part(chk, m)
+
+
+def _bytes_ai_part(chk, m, S, rep):
+    ix = chk.ix
     # ------------------------------------------------------------------ R02.1
     # names of the loop-carried variables by role: start = the slice's lower bound; remaining = S - start
     if rep.get("mode") == "inductive":
@@ -127,6 +134,35 @@ def run(chk, model: SegmentModel = None):
         elif "continuity" not in failed_exact:
             pending.setdefault("continuity", "carried start differs from the end of the emitted slice")
     chk.floor("iteration ends checked for continuity", cont_seen, 4)
+    # complete exact paths: the slices written, in order, chain 0 -> S (covers fast paths that bypass the generator)
+    n_chain = 0
+    for k, o in enumerate(m.seg_outs):
+        if o.kind != "val" or any(t == ("loop", "inductive") for t in o.st.trace):
+            continue
+        cur = LinExpr.c(0)
+        why = None
+        for e in o.st.events:
+            if e[0] != "vr-out":
+                continue
+            yy = m._segment_from_vr(e, True, o.st)
+            parts = segment_parts(yy) if yy["value"] is not None else None
+            if parts is None or parts[2][0] != "slice":
+                why = "a visible record does not carry a slice of the body"
+                break
+            _, lo, hi = parts[2][2]
+            if not entails(o.st.cons, eq(lo, cur)):
+                why = f"a segment starts at {lo!r} but the bytes written so far end at {cur!r}"
+                break
+            cur = hi
+        if why is None and not entails(o.st.cons, eq(cur, S)):
+            why = f"the segments written end at byte {cur!r}, not at len(body)"
+        n_chain += 1
+        if why is not None:
+            failed_exact.add("chain")
+        chk.require(why is None, "R02.1", f"slices-chain-0..S:complete-path{k}",
+                    f"on a complete path the segments do not tile the body in order: {why}", m.record_loop[0].where,
+                    witness=SegmentModel.witness(o.st.cons) if why else None, nontrivial=(n_chain < 8))
+    chk.floor("complete exact paths chain-checked", n_chain, 3)
     ex_seen = 0
     for e in m.loop_exits:
         _, where, vals, cons, mode = e
@@ -156,6 +192,10 @@ def run(chk, model: SegmentModel = None):
             chk.fail("R02.1", f"segmenter-raises:{o.where[1][:50]}", f"the segmenter can raise {o.exc}", o.where[0],
                      witness=SegmentModel.witness(o.st.cons))
 
+
+
+def _structural_part(chk, m):
+    ix, cg = chk.ix, chk.cg
     # ------------------------------------------------------------------ R02.3 read-only record facts
     lrb = m.lrb_cls
     init = lrb.lookup("__init__")
@@ -218,11 +258,13 @@ def run(chk, model: SegmentModel = None):
     f, loop = m.record_loop
     outer = None
     for n in walk_local(f.node):
-        if isinstance(n, ast.For) and loop in n.body:
+        if isinstance(n, ast.For) and n is not loop and any(x is loop for x in ast.walk(n)):
             outer = n
-    sc_ = m.seg_call
-    ok = outer is not None and len(outer.body) == 1 and isinstance(sc_.func.value.func.value, ast.Name) \
-        and any(isinstance(t, ast.Name) and t.id == sc_.func.value.func.value.id for t in ast.walk(outer.target))
+    rec_names = {t.id for t in ast.walk(outer.target) if isinstance(t, ast.Name)} if outer is not None else set()
+    rep_calls = [c for c in ast.walk(outer) if isinstance(c, ast.Call) and isinstance(c.func, ast.Attribute)
+                 and c.func.attr == "represent_as_bytes"] if outer is not None else []
+    ok = outer is not None and bool(rep_calls) and all(isinstance(c.func.value, ast.Name) and c.func.value.id in rec_names
+                                                       for c in rep_calls)
     chk.require(ok, "R02.4", "segments-nested-in-record-loop",
                 "segments are not produced inside the loop over records from that record's own bytes",
                 f"{f.module.relpath}:{loop.lineno}")
@@ -235,6 +277,8 @@ def run(chk, model: SegmentModel = None):
         bad = loop.iter is not m.seg_call or any(w in seg_src for w in ("sorted(", "reversed(", "[::-1]"))
         chk.require(not bad, "R02.4", "segment-order-preserved", f"segments are reordered: {seg_src}",
                     f"{f.module.relpath}:{loop.lineno}")
+    if m.error is not None and not chk.violations():
+        raise m.error
 
 
 def _is_prefix(a, b) -> bool:
